@@ -155,7 +155,7 @@ pub fn eval(c: &Case, st: &mut Stats, excuse_kf: bool) -> Result<Verdict, String
                 OpResult::Matched { requested, fills, remaining, .. } => format!(
                     "match {} -> {:?} rem {}",
                     requested,
-                    fills.iter().map(|f| (f.0.to_string()[..8].to_string(), f.1)).collect::<Vec<_>>(),
+                    fills.iter().map(|f| (crate::spec::short_id(f.0), f.1)).collect::<Vec<_>>(),
                     remaining
                 ),
                 OpResult::Updated(u) => format!("update -> {:?}", u.as_ref().map(|o| o.as_ref().map(brief))),
